@@ -246,10 +246,12 @@ impl<'a> Visitor for DecVisitor<'a> {
                 }
             }
 
-            if has("C05") && exp_ok {
+            if has("C05") {
+                // whatever the library accepts must have a size() inside the slice that is sufficient to map it
+                // again; the comparison with the reference extent needs the reference to accept the input too
                 if let Ok((val, size, _view, _again, _, _, _)) = fbres {
                     let es = exp["size"].as_u64().unwrap_or(0) as usize;
-                    if *size != es {
+                    if exp_ok && *size != es {
                         out.viol("C05", "size", id, &format!("impl=spec{:+}", *size as i64 - es as i64), format!("size() = {} reference extent {} for {}", size, es, val));
                     }
                     if *size > bs.len() {
@@ -420,8 +422,10 @@ impl<'a> Visitor for LayoutVisitor<'a> {
                 if sv > l {
                     out.viol("C04", "view", id, "size_of_val>slice", format!("size_of_val = {} of a value mapped from {} bytes", sv, l));
                 }
-                if ab != u("view") {
-                    out.viol("C04", "view", id, "as_bytes", format!("as_bytes().len() = {} reference {} (slice of {} bytes)", ab, u("view"), l));
+                // (that as_bytes() covers the whole view is what C02's "own bytes validate again" needs; C04 only
+                // states that nothing claims more than the slice / the compiler's size)
+                if ab > sv {
+                    out.viol("C04", "view", id, "as_bytes>size_of_val", format!("as_bytes().len() = {} but size_of_val = {} (slice of {} bytes)", ab, sv, l));
                 }
                 if ab > l {
                     out.viol("C04", "view", id, "as_bytes>slice", format!("as_bytes().len() = {} of a value mapped from {} bytes", ab, l));
